@@ -250,7 +250,8 @@ CHECKS["C19"] = dict(
     level_note="memberlist is replaced by the harness in this part: Peer.AddState's closures are restated in harness/cluster/busnode.go (send is identical; peers/sendOversize are injected). The mesh part (C08/C19-mesh) runs the real memberlist and the real AddState.",
     assumptions=E1_ASSUME,
     units=[dict(pkg="app", test="TestVerifC19Bus", shards_quick=8, shards_thorough=16, budget_quick=200, budget_thorough=1500),
-           dict(pkg="app", test="TestVerifC19Mesh", shards_quick=8, shards_thorough=16, budget_quick=200, budget_thorough=1500)],
+           dict(pkg="app", test="TestVerifC19Mesh", shards_quick=8, shards_thorough=16, budget_quick=200, budget_thorough=1500),
+           dict(pkg="cluster", test="TestVerifC19TLS", gomaxprocs=1, shards_quick=1, shards_thorough=1, budget_quick=60, budget_thorough=300)],
 )
 
 CHECKS["C08"] = dict(
